@@ -36,6 +36,7 @@ type Scn struct {
 	limits   []types.PerMessageBurnLimit
 	nonces   []types.Nonce
 	bals     map[string]*big.Int // bech32 -> uusdc balance
+	fillers  []string            // further enabled attester strings that nobody signs with
 }
 
 func (g *Gen) acct() sdk.AccAddress { return sdk.AccAddress(g.r.Bytes(20)) }
@@ -111,6 +112,9 @@ func (s *Scn) Init() {
 		if s.enabled[i] {
 			g.line("G attester v=%x", sp)
 		}
+	}
+	for _, sp := range s.fillers {
+		g.line("G attester v=%x", sp)
 	}
 	doms := []int{}
 	for d := range s.messengers {
